@@ -58,6 +58,11 @@ package main
 //@   atcall io.Copy before: assert @C03: defined(deadlineAsked) && arg1 == clientConn
 //@   atcall Read before: assert @C03: defined(deadlineAsked)
 //@   atcall MarkActive before: snap matched := true
+// C17: at every log call of the handler the error in scope - the only value of the handler that can carry an address
+// when client address logging is off - is nil or address-free (one obligation per log call site)
+//@   atcall Errorln before: assert @C17: err == nil || addrFree(err)
+//@   atcall Errorf before: assert @C17: err == nil || addrFree(err)
+//@   atcall Warnf before: assert @C17: err == nil || addrFree(err)
 //@   atcall time.Sleep before: snap gaveUp := true
 //@   ensures @C03: !defined(matched) && !defined(gaveUp) ==> nwrites(clientConn) == old(nwrites(clientConn)) && closed(clientConn) == old(closed(clientConn))
 //@   ensures @C03: defined(deadlineAsked) && !defined(matched) && !defined(gaveUp) ==> rdEnded(clientConn)
